@@ -1002,6 +1002,16 @@ func runAPI(cfg *config, prop string) *Report {
 			}
 			emptied = append(emptied, directedHist{false, reqs})
 		}
+		// a raw X9 upload, then the same bytes without their File Header record (raw and as a v2 form), then the whole file
+		// again: what one upload decoded is nothing a later one may start from
+		if len(pools.x9E) > 0 && len(pools.x9E[0]) > 84 && len(pools.x9A) > 0 && len(pools.x9A[0]) > 84 {
+			reqs := []*apiReq{{Kind: "c1", CT: "application/octet-stream", Body: pools.x9E[0], Src: "clean"},
+				{Kind: "c1", CT: "application/octet-stream", Body: pools.x9E[0][84:], Note: "bad:x9-without-file-header"}, {Kind: "list"},
+				{Kind: "c2", Body: pools.x9A[0], Multipart: "file:text/plain", Src: "clean"},
+				{Kind: "c2", Body: pools.x9A[0][84:], Multipart: "file:text/plain", Note: "bad:x9-without-file-header"}, {Kind: "list"},
+				{Kind: "c1", CT: "application/octet-stream", Body: pools.x9E[0], Src: "clean"}, {Kind: "list"}}
+			bigUpload = append(bigUpload, directedHist{false, reqs})
+		}
 		// an upload of more than 64 KiB through the multipart form of v2 (both character sets), then reads of what was stored
 		if len(pools.bigX9) == 2 {
 			reqs := []*apiReq{{Kind: "c2", Body: pools.bigX9[0], Multipart: "file:application/octet-stream", Src: "clean"}, {Kind: "get", ID: "@last"}, {Kind: "cont", ID: "@last"},
@@ -1078,8 +1088,8 @@ func runAPI(cfg *config, prop string) *Report {
 			directed = append([]directedHist{emptied[0]}, append(directed, emptied[1:]...)...)
 		}
 		directed = append(bigUpload, directed...)
-		if cfg.tier != "thorough" && len(directed) > 15 {
-			directed = directed[:15]
+		if cfg.tier != "thorough" && len(directed) > 16 {
+			directed = directed[:16]
 		}
 		nHist += len(directed)
 	}
